@@ -6,6 +6,7 @@ import numpy as np
 from classy_blocks.construct.assemblies.assembly import Assembly
 from classy_blocks.construct.edges import Spline
 from classy_blocks.construct.flat.sketches.disk import HalfDisk
+from classy_blocks.construct.point import Point
 from classy_blocks.construct.shape import Shape
 from classy_blocks.construct.shapes.cylinder import SemiCylinder
 from classy_blocks.types import FloatListType, PointType
@@ -108,7 +109,15 @@ class JointBase(Assembly, abc.ABC):
             self.assemblies.append(cylinder)
             shapes += cylinder.shapes
 
+        # the point where the branches meet is transformed together with the shapes
+        # (a corner of a loft is no substitute: a mirrored loft swaps its bottom and top face)
+        self._center = Point(center_point)
+
         super().__init__(shapes)
+
+    @property
+    def parts(self):
+        return [*self.shapes, self._center]
 
     @abc.abstractmethod
     def _get_angles(self, count: int) -> FloatListType:
@@ -116,8 +125,7 @@ class JointBase(Assembly, abc.ABC):
 
     @property
     def center(self):
-        # "center" is the start point
-        return self.shapes[0].operations[0].top_face.points[0].position
+        return self._center.position
 
     def chop_axial(self, **kwargs):
         for asm in self.assemblies:
